@@ -24,6 +24,7 @@ import (
 // of line break is an atom (LF, CR, CR LF; LF CR by two atoms).
 var litAtoms = []string{"a", "{", "}", "{/literal}", "{{/literal}}", "/literal}", "{literal}", " // c", "/* c */",
 	"\n  ", " ", "{sp}", "{lb}", "\"", "E", "\n", "\r", "\r\n", "P", "Q", "N", "V", "F"}
+
 // the hazards proper, for one more atom of depth in the thorough tier
 var litAtomsCore = []string{"a", "{", "}", "{/literal}", "{{/literal}}", "/literal}", " // c", "\n", "\r", "\r\n"}
 var litReal = map[rune]string{'E': "\u00e9", 'P': "\u2028", 'Q': "\u2029", 'N': "\u0085", 'V': "\v", 'F': "\f"}
